@@ -33,6 +33,7 @@ def parseOp : List String → Option Op
   | ["add", h, n] => do let h ← hex? h; let n ← int? n; pure (.add h n)
   | ["off", h] => (int? h).map .off
   | ["reset"] => some .reset
+  | ["resetall"] => some .resetAll
   | _ => none
 
 def parseObs : List String → Option Obs
@@ -66,7 +67,7 @@ def showObs : Obs → String
 
 def showOp : Op → String
   | .park q h n => s!"park {q} {showHex h} {n}" | .take q => s!"take {q}"
-  | .add h n => s!"add {showHex h} {n}" | .off h => s!"off {h}" | .reset => "reset"
+  | .add h n => s!"add {showHex h} {n}" | .off h => s!"off {h}" | .reset => "reset" | .resetAll => "resetall"
 
 def showParked (p : List (Int × Bytes)) : String :=
   "[" ++ ", ".intercalate (p.map fun (k, b) => s!"{k}:{showHex b}") ++ "]"
